@@ -92,6 +92,26 @@ pub fn run(r: &mut Report) {
         }
         r.case("canonical-form-parses-back", json!({"documents": n, "texts": ts.len()}), "every accepted document's canonical bytes parse back to an equal value", format!("{:?}", bad), bad.is_empty());
     }
+    // a statement's declared `_type` and its shape may disagree: whatever the parser then does (reject, or go by one of them), the value
+    // it hands back reports ONE version - the wrapper variant, `judge_from_value` and the value's own `version()` all name the same one
+    {
+        let shapes = vec![("naive", json!({"name": "n", "materials": {}, "products": {}, "byproducts": {"return-value": 0, "stderr": "", "stdout": ""}, "command": [], "env": null})),
+                          ("v0.1", json!({"subject": {}, "predicateType": "https://in-toto.io/Link/v0.2", "predicate": link_pred()}))];
+        let types = ["link", "https://in-toto.io/Statement/v0.1", "Link", "https://in-toto.io/Statement/v0.2", "", "layout"];
+        let mut bad: Vec<String> = vec![]; let mut n = 0;
+        for (shape, body) in &shapes { for ty in types {
+            n += 1;
+            let mut doc = body.clone(); doc["_type"] = json!(ty);
+            let parsed = no_panic(|| serde_json::from_str::<StatementWrapper>(&doc.to_string()));
+            if let Ok(Ok(w)) = parsed {
+                let variant = match &w { StatementWrapper::Naive(_) => StatementVer::Naive, StatementWrapper::V0_1(_) => StatementVer::V0_1 };
+                let judged = no_panic(|| StatementWrapper::judge_from_value(&doc)).ok().and_then(|x| x.ok());
+                let own = no_panic(|| w.into_trait().version()).ok();
+                if !(judged == Some(variant) && own == Some(variant)) && bad.len() < 6 { bad.push(format!("shape {} declared {:?}: variant {:?}, judge_from_value {:?}, version() {:?}", shape, ty, variant, judged, own)); }
+            }
+        } }
+        r.case("declared-type-and-shape-disagree", json!({"documents": n}), "an accepted statement has one version, however it is asked", format!("{:?}", bad), bad.is_empty());
+    }
     // each predicate document is recognised as exactly its own version and round-trips
     let preds = [("https://in-toto.io/Link/v0.2", link_pred()), ("https://slsa.dev/provenance/v0.1", slsa01()), ("https://slsa.dev/provenance/v0.2", slsa02())];
     for (ty, doc) in preds.iter() {
